@@ -52,7 +52,12 @@ SITE_SETS = {
     'mixed': ['bulk', 'grain boundaries', 'bulk'],
     'same': ['dislocations', 'dislocations', 'dislocations'],
     'gb': ['grain edges', 'grain boundaries', 'grain corners'],
+    # needle-shaped precipitates whose aspect ratio follows from the elastic strain energy (calculateAspectRatio): each phase
+    # carries its own eigenstrain, so its aspect-ratio table differs from the others'
+    'strain': ['bulk', 'bulk', 'bulk'],
 }
+STRAIN = {'P1': {'eig': [0.022, 0.022, 0.003], 'calc': True}, 'P2': {'eig': [0.010, 0.010, 0.002], 'calc': True},
+          'P3': {'eig': [0.004, 0.004, 0.012], 'calc': False}}
 
 
 def prepare():
@@ -87,6 +92,8 @@ def _run_precip(case, order, eps=0.0, eps_t=0.0):
     cfg = {'system': case['system'], 'nphases': n, 'phase_order': list(order), 'site': [sites[i] for i in order],
            'it': case['it'], 'temp': case['temp'], 'tf': case.get('tf', 20.0) * (1 + eps_t), 'constraints': cons, 'x0': x0,
            'max_steps': case.get('horizon', HORIZON), 'record': False}
+    if case['sites'] == 'strain':
+        cfg['strain'] = STRAIN
     m, therm, c = precip.build_model(cfg)
     if case.get('parents'):
         m.setParentPhases('P2', ['P1'])         # by name, so the relation travels with the phases
@@ -277,11 +284,23 @@ def phase_cases(quick):
         # 'hrh' = hold 700 K, ramp to 900 K, hold: isothermal steps (the PSD rule only acts there) and ramp steps (temperature rule)
         'temp': ['hrh'] if quick else ['iso', 'hrh', 'heat', 'updown'],
         'only': CONSTRAINTS + ['all'],
-        'sites': ['mixed'] if quick else ['mixed', 'same', 'gb', 'mixed+parents'],
+        'sites': ['mixed', 'strain'] if quick else ['mixed', 'same', 'gb', 'mixed+parents', 'strain'],
         'horizon': [150 if quick else HORIZON],
     }
     from mc import core
-    out = core.product(levels)
+    # the strain-energy aspect-ratio search is expensive (a quadrature per size class at every grid change): only with all
+    # constraints on; quick: two phases only
+    # (multicomponent runs evaluate the strain energy of every size class at every growth-rate call: 80-350 s per case, so the
+    # ternary strain cases are thorough-only, two phases, Euler)
+    def keep(c):
+        if c['sites'] != 'strain':
+            return True
+        if c['only'] != 'all':
+            return False
+        if c['system'] == 'tern':
+            return (not quick) and c['nphases'] == 2 and c['it'] == 'euler' and c['temp'] == 'hrh'
+        return c['nphases'] == 2 or not quick
+    out = [c for c in core.product(levels) if keep(c)]
     for c in out:
         if c['sites'].endswith('+parents'):
             c['sites'], c['parents'] = c['sites'].split('+')[0], True
